@@ -1,5 +1,5 @@
 SPECIFICATION OSpec
-CONSTANTS ValueSet = "medium"
+CONSTANTS ValueSet = "small"
   NParts = 1
 INVARIANT OEmit
 CHECK_DEADLOCK FALSE
